@@ -64,7 +64,14 @@ def direct_cases(tier, seed):
         opens = [rng.choice([0x28, 0x5b, 0x7b]) for _ in range(rng.randint(2, 4))]
         closer = {0x28: 0x29, 0x5b: 0x5d, 0x7b: 0x7d}
         wrong = rng.choice([c for c in (0x29, 0x5d, 0x7d) if c != closer[opens[-1]]])
-        s = opens + [wrong] + rng.choice([[0x0a], [0x0d, 0x0a]])
+        s = opens + [wrong]
+        if rng.random() < 0.4:
+            # a character typed and erased, then a combining mark that joins the cluster before it -- all inside the rejected
+            # line; sometimes a blank line follows it
+            s += [0x78, 0x08, 0x301]
+        s += rng.choice([[0x0a], [0x0d, 0x0a]])
+        if rng.random() < 0.3:
+            s += rng.choice([[0x0a], [0x0d, 0x0a]])
         keep = rng.randint(1, len(opens))
         s += [0x08] * (len(opens) - keep + 1) + [closer[c] for c in reversed(opens[:keep])] + [0x0a]
         s += [rng.choice([0x78, 0x79])] + [0x0a] + ([0x28, 0x29, 0x0a] if rng.random() < 0.5 else [])
